@@ -58,7 +58,9 @@ GROUP = {
         update_set() || got@ == self.content@,
         // the only write allowed: UPDATE_GOLDEN set, this golden's path, exactly `got`
         forall|p: &Path, c: Seq<char>| env_model::fs::write_allowed(p, c) <==> (update_set() && p == self.path.as_path_spec() && c == got@),   // @Golden.assert.writes_only_when_told
-    ensures true,   // @Golden.assert.succeeds_when_equal_or_updating
+    ensures
+        // when UPDATE_GOLDEN is set the file afterwards contains exactly `got`: the write has happened
+        update_set() ==> env_model::fs::wrote(self.path.as_path_spec(), got@),   // @Golden.assert.update_writes_exactly_got
 """),
         # variant F: the cases in which assert must FAIL: no write may happen and the comparison is reached with different operands
         assert_unit("Golden::assert[fails]", "assert_fails", "require_ne", """
